@@ -109,7 +109,7 @@ Fixpoint parse_header_lines (lines : list bytes) (cur : option bytes) (hs : list
         | c :: _ =>
           if is_lws c then
             match cur with
-            | Some (_ :: _ as h) => parse_header_lines rest cur (hdr_add hs h [[SP]; lstrip line] false)
+            | Some ((_ :: _) as h) => parse_header_lines rest cur (hdr_add hs h [[SP]; lstrip line] false)
             | _ => parse_header_lines rest cur hs
             end
           else
